@@ -8,14 +8,23 @@ package secret
 @*/
 /*@ immutable types/secret.subscription.parent types/secret.subscription.outch types/secret.subscription.cache
   types/secret.cache.parent types/secret.controller.parent types/secret.controller.cache types/secret.filterController.filterParent
-  types/secret.filterSubscription.filterParent
+  types/secret.filterSubscription.filterParent types/secret.filterController.controller
 @*/
 /*@ nonblocking-send types/secret.subscription.outch
 @*/
 
 /*@ theory secrettyped
 ;; theory lists wiring
-;; uses types/secret.event
+;; uses types/secret.event types/secret.controller
+(declare-fun |F!types/secret.filterController!controller| (V) |S!types/secret.controller|)
+(assert (forall ((c V)) (! (=> (= (dyntype c) |ty!*types/secret.filterController|)
+                               (not (= (|types/secret.controller.parent| (|F!types/secret.filterController!controller| c)) vnil)))
+                          :pattern ((|F!types/secret.filterController!controller| c)))))
+(declare-fun |F!types/secret.controller!parent| (V) V)
+; object invariant of the typed controllers (they are only built by newController / newFilterController,
+; whose precondition is a non-nil parent; the field is immutable)
+(assert (forall ((c V)) (! (=> (or (= (dyntype c) |ty!*types/secret.controller|) (= (dyntype c) |ty!*types/secret.filterController|))
+                               (not (= (|F!types/secret.controller!parent| c) vnil))) :pattern ((|F!types/secret.controller!parent| c)))))
 (define-fun isT ((o V)) Bool (and (not (= o vnil)) (= (dyntype o) |ty!*core/v1.Secret|)))
 (declare-fun tevt-type (V) Str)
 (declare-fun tevt-res (V) V)
@@ -239,6 +248,23 @@ package secret
   at call(Refilter) assert [refilters-the-untyped-subscription-with-the-given-filter] (and (= $recv {s.filterParent}) (= $0 {f}))
 @*/
 
+/*@ func types/secret.NewMonitor
+  props C20 C16
+  theory secrettyped
+  allow panic
+  note NewMonitor panics for a Publisher that is not one of this package's controllers (documented in the code)
+  requires (and (not (= {publisher} vnil)) (not (= {handler} vnil)))
+  at call(OnInitialize) assert [initialize-adapter] (= (closureOf $0) "types/secret.NewMonitor$1")
+  at call(OnCreate) assert [create-adapter-calls-oncreate] (= (closureOf $0) "types/secret.NewMonitor$2")
+  at call(OnUpdate) assert [update-adapter-calls-onupdate] (= (closureOf $0) "types/secret.NewMonitor$3")
+  at call(OnDelete) assert [delete-adapter-calls-ondelete] (= (closureOf $0) "types/secret.NewMonitor$4")
+  ensures (=> (= result1 vnil) (not (= result0 vnil)))
+@*/
+/*@ func types/secret.BuildHandler
+  props C20
+  fresh result
+  ensures (not (= result vnil))
+@*/
 /*@ func types/secret.NewMonitor$1
   props C20 C16
   theory secrettyped
